@@ -51,7 +51,7 @@ def run_rules(mod, prog: Program):
 PRESENCE_KEYS = ("clusterer-wiring", "copy-flag-rebound", "single-mode-agreement", "eigh-rows", "ess-lossy", "set-order-layout", "first-iteration-guard", "lost-fancy-store", "kernel-parameter-rebound", "rename-on-error", "column-density", "fancy-accumulate", "density-unregularised", "retained-state-copy", "caller-array-write", "handed-out-logw-modified", "temperature-rebound", "stride-assumption", "seed-transformed", "checkpoint-seed", "draw-cached", "import-time-draw", "stream-rewind", "pool-cached", "pool-read", "vectorize-read",
                  "cached-mutation", "inplace:", "shared-history-list", "foreign-rebind", "alias-mutation", "errstate-underflow", "weights-dtype", "wrapper-stateless", "wrapper-branch",
                  "wrapper-argument", "logl-rewritten", "logl-dtype", "partial-row-copy", "multinomial-pvals-tolerance", "rank-index", "mode-attr-write", "shared-clusterer-rebound",
-                 "spectral-floor", "row-gather", "fold-guard-jump", "fold-exact", "unpicklable-attr", "retry-loop", "iter-seed", "facade-partial-selection", "result-attr",
+                 "spectral-floor", "row-gather", "fold-guard-jump", "fold-exact", "unpicklable-attr", "retry-loop", "iter-seed", "facade-partial-selection",
                  "coord-conflict", "volume-coord-conflict", "weight-scale-conflict", "scale-conflict", "volume-scale-conflict", "conflict:", "cond:", "hazard", "seed-none-guard",
                  "seed-truthiness-guard", "provenance:", "import:", "whole-array-write", "store-index", "user-call", "blobs-write-guard-inverted", "blobs-guard-inverted",
                  "helper-drops-list", "list-dropped", "rewrite:", "crossed", "literal:", "labels-must-write", "split-index", "src-index", "commit-filter", "append-", "commit-once",
@@ -195,6 +195,26 @@ def check(prop: str, tier: str, repo: str | None, write: bool = True) -> int:
                                       f"({', '.join(sorted(refs))[:120]}) that the normal form cannot inline -- outside the rule's vocabulary [{ob.loc}]")
                 else:
                     kept.append(ob)
+            new_violations = kept
+        # Agreement with the normal form: the normal form is the same program, so a rule that reads both must say the
+        # same about both.  A violation reported on the tree as written that the same rule does NOT report on the
+        # normal form (where it ran without an analysis error) is a disagreement of the rule with itself about how
+        # the code is spelt -- undecided, never an alarm.  A violation the normal form confirms, or about which the
+        # normal form says nothing (the rule could not run there), stands.
+        rep_nf = locals().get("rep2")
+        if new_violations and rep_nf is not None and rep is not rep_nf and not os.environ.get("SA_NO_NF_AGREEMENT"):
+            kept = []
+            for ob in new_violations:
+                confirmed = any(o2.rule == ob.rule and not o2.ok and engine.match_known(o2, prop, known) is None for o2 in rep_nf.obligations)
+                ran = any(o2.rule == ob.rule for o2 in rep_nf.obligations) and not any(e.startswith(ob.rule) for e in rep_nf.errors)
+                prog_nf = locals().get("prog2")
+                still_there = prog_nf is None or any(f.short == ob.func for f in prog_nf.functions.values())
+                if confirmed or not ran or (_is_presence_rule(ob) and still_there):
+                    kept.append(ob)  # (a found construct is there however the rest is spelt -- unless its function was written out into its callers)
+                else:
+                    ob.status = "undecided"
+                    rep.errors.append(f"{ob.rule}: undecided in {ob.func}: reported on the tree as written but not on its normal form (the same program with the new helpers written out): "
+                                      f"the rule's reading depends on the spelling [{ob.loc}]")
             new_violations = kept
         # self-test of the rules (variants of the live tree held in memory)
         extra = {}
